@@ -22,7 +22,10 @@ MANIFEST = {
             "back once per test with the times, tags, details and status word in force (simulation of the TagContext "
             "chain by a two-level specification). The Gallina model is tied to /repo on every run by differential "
             "execution of model and implementation inside coqc; the oracle for a failing input is the executable "
-            "statement spec_okb, proved to imply the readable Spec.",
+            "statement spec_okb, proved to imply the readable Spec. An on_test that raises is part of the input (per "
+            "TestByTestResult the tests it raises for): the exception comes out of that stopTest and the following "
+            "tests are still reported once each with their own times, tags and details (wf excludes a faulty on_test "
+            "in front of another result of a MultiTestResult: outside the property's quantifier).",
     "note": "Trusted: Coq kernel + vm_compute; the harness (generators, drivers, Gallina printer, the probing of the "
             "doubles' capability sets and of TestByTestResult's status words); failfast is never set on any result; "
             "text details are str over a small alphabet (code points < 5000). All theorems closed under the global context.",
@@ -39,6 +42,10 @@ RULE = ("adapter stacks: every well-formed stack of depth <= 2 over the five tar
         "nine name sets around the special names in EVERY insertion order x six outcomes over stacks ending in every "
         "target flavour; real testtools TestCases (body errors/fails/skips/passes, 0-2 raising cleanups, own details "
         "incl. one named 'traceback') run with TestCase.run against the stack, the history being what they report; "
+        "on_test callbacks that RAISE (after taking their arguments) for a set of test ids: at the last innermost "
+        "result of about half of all stacks that end in a TestByTestResult, plus a block of 11 stacks x histories of "
+        "2-4 tests with test-local tags() and Taggers, plus real TestCases over them (never where a result is "
+        "dispatched to after the faulty one: outside wf); "
         "non-trivial = at least one test and (depth >= 2 or a target lacking a method or the details protocol or a "
         "Tagger or a TestByTestResult); distinct = distinct JSON")
 TRUSTED = ["the doubles of testtools.testresult.doubles and a logging subclass of testtools.TestResult record what "
@@ -52,7 +59,17 @@ ASSUMPTIONS = ["stacks are well-formed: TestResultDecorator / Tagger (which forw
                "histories are bracketed (startTest, one outcome, stopTest; startTestRun/stopTestRun between tests); "
                "exactly one of err/reason and details is given; a bare skip reason is not empty; detail names are "
                "distinct; a text/* detail decodes in its charset (text_content); a 'reason' detail is text",
-               "failfast is left False on every result; time() is always given a datetime"]
+               "failfast is left False on every result; time() is always given a datetime",
+               "the only user-supplied callable in the anchored code is TestByTestResult's on_test; it may raise (an "
+               "Exception subclass) after it has taken its arguments, the caller goes on with the next call; the "
+               "targets' own methods do not raise",
+               "EXCLUDED (Spec.C08.fault_reaches_sibling, part of wf): an on_test that raises for a test while another "
+               "innermost result is still to be dispatched to after its TestByTestResult (a later member of an "
+               "enclosing MultiTestResult). MultiTestResult._dispatch stops at the member that raised, the later "
+               "results never get that stopTest; a wrapped result that raises in front of others is a fault "
+               "dimension C08's quantifier does not name (observed, see notes/fixes/observed-multi-dispatch-after-"
+               "raise.patch; the model keeps the behaviour, Props example C08_example_fault_reaches_sibling). An "
+               "on_test that raises where no result comes after it is inside"]
 EXPLANATION = ("Theorems in coq/Props/C08.v over all stacks and histories; correspondence: the calls of a generated "
                "history are made on a real stack of adapters over logging doubles, the logs of all innermost results, "
                "the on_test callbacks and the raising calls are compared with coq/Model/Adapters.v and judged by "
@@ -76,7 +93,12 @@ EXT_FLAVOURS = ["ext", "tt"]
 EPOCH = datetime.datetime(2000, 1, 1, tzinfo=datetime.timezone.utc)
 ERR_METH = {"error": "addError", "failure": "addFailure", "xfail": "addExpectedFailure"}
 OK_METH = {"success": "addSuccess", "uxsuccess": "addUnexpectedSuccess"}
-EXN = {"AttributeError": "AttributeError", "ValueError": "ValueError", "TypeError": "TypeError"}
+EXN = {"AttributeError": "AttributeError", "ValueError": "ValueError", "TypeError": "TypeError",
+       "SinkError": "CallbackError"}
+
+
+class SinkError(Exception):
+    """what a faulty on_test raises"""
 
 
 # ---------------------------------------------------------------- real objects
@@ -267,7 +289,13 @@ def build(tree, leaves):
     if k == "B":
         log = []
         leaves.append(("B", log))
-        return real.TestByTestResult(lambda **kw: log.append(kw))
+        bad = set(tree[1]) if len(tree) > 1 else ()
+
+        def on_test(**kw):              # takes its arguments, then fails for the tests in bad
+            log.append(kw)
+            if o_test(kw["test"]) in bad:
+                raise SinkError("sink unavailable")
+        return real.TestByTestResult(on_test)
     if k == "E":
         return real.ExtendedToOriginalDecorator(build(tree[1], leaves))
     if k == "M":
@@ -436,7 +464,11 @@ def run_real(top, c, ctx):
     assert test_kind(tid) == "case"
     t = _classes()["RealCase"]("t%d" % tid, prog)
     ctx.tests[tid] = t
-    t.run(top.decorated)
+    exc = None
+    try:
+        t.run(top.decorated)
+    except Exception as e:      # noqa - what a faulty on_test raised comes out of stopTest, hence out of run()
+        exc = EXN.get(type(e).__name__, "OtherError")
     det = ["d", o_details(t.getDetails(), ctx)]
     kind = real_outcome(prog)
     if kind in ERR_METH:
@@ -445,7 +477,7 @@ def run_real(top, c, ctx):
         oc = ["skip", tid, det]
     else:
         oc = ["ok", kind, tid, det]
-    return [["start", tid], oc, ["stop", tid]]
+    return [["start", tid], oc, ["stop", tid]], exc
 
 
 def has_real(case):
@@ -471,7 +503,10 @@ def drive(case):
     given = []
     for j, c in enumerate(case["hist"]):
         if c[0] == "real":
-            given.append(run_real(top, c, ctx))
+            calls, exc = run_real(top, c, ctx)
+            given.append(calls)
+            if exc:
+                raised.append([j, exc])
             continue
         try:
             invoke(top, c, ctx)
@@ -584,7 +619,7 @@ def t_stack(t):
     if k == "T":
         return "(Target (Build_caps %s))" % " ".join(q.boolean(b) for b in caps(t[1]))
     if k == "B":
-        return "ByTest"
+        return "(ByTest %s)" % t_nats(t[1] if len(t) > 1 else [])
     if k == "E":
         return "(E2O %s)" % t_stack(t[1])
     if k == "M":
@@ -602,6 +637,11 @@ def t_cb(c):
 
 def term(case, o):
     hist, pos = expand(case, o)
+
+    def rpos(j):        # a real TestCase run raises from its stopTest
+        if j >= len(pos):
+            return j
+        return pos[j] + 2 if case["hist"][j][0] == "real" else pos[j]
     i = q.record([("stack", t_stack(case["stack"])), ("hist", q.lst([t_call(c) for c in hist]))])
     leaves = []
     for kind, l in o["leaves"]:
@@ -610,7 +650,7 @@ def term(case, o):
         else:
             leaves.append("(OCbs %s)" % q.lst([t_cb(c) for c in l]))
     ob = q.record([("o_leaves", q.lst(leaves)),
-                   ("o_raised", q.lst([q.pair(q.nat(pos[j] if j < len(pos) else j), e) for j, e in o["raised"]]))])
+                   ("o_raised", q.lst([q.pair(q.nat(rpos(j)), e) for j, e in o["raised"]]))])
     return q.pair(i, ob)
 
 
@@ -866,6 +906,56 @@ def real_cases(rng, tier):
     return out
 
 
+# ---- on_test callbacks that raise
+def with_faults(rng, case, p=0.6):
+    """the same case with on_test made to raise for some of its tests, at the last innermost result: nothing is
+    dispatched to after it (Spec.C08.fault_reaches_sibling stays false, the input stays well-formed)"""
+    tids = sorted({c[1] for c in case["hist"] if c[0] in ("start", "real")})
+    s = json.loads(json.dumps(case["stack"]))
+    ls = leaves_of(s)
+    cand = [l for l in ls[-1:] if l[0] == "B"]
+    if not tids or not cand:
+        return case
+    for l in cand:
+        if rng.random() < p:
+            l[1:] = [[t for t in tids if rng.random() < 0.5] or [rng.choice(tids)]]
+    return {"stack": s, "hist": case["hist"]}
+
+
+def has_faults(case):
+    return any(l[0] == "B" and len(l) > 1 and l[1] for l in leaves_of(case["stack"]))
+
+
+def fault_reaches_sibling(case):
+    """Spec.C08.fault_reaches_sibling: outside wf, never generated"""
+    ls = leaves_of(case["stack"])
+    stops = {c[1] for c in case["hist"] if c[0] in ("stop", "real")}
+    return any(l[0] == "B" and len(l) > 1 and stops & set(l[1]) for l in ls[:-1])
+
+
+FAULT_STACKS = [["B"], ["E", ["B"]], ["D", ["B"]], ["G", [1], [2], ["B"]], ["M", [["B"]]], ["M", [["T", "27"], ["B"]]],
+                ["M", [["T", "ext"], ["G", [3], [], ["B"]]]], ["E", ["G", [1], [], ["E", ["B"]]]],
+                ["G", [2], [], ["M", [["T", "26"], ["B"]]]], ["M", [["B"], ["D", ["B"]]]],
+                ["M", [["M", [["T", "tw"], ["T", "tt"]]], ["G", [0], [4], ["B"]]]]]
+def fault_cases(rng, tier):
+    """tests with test-local tag changes (tags() inside the test, Taggers above) whose report fails, followed by
+    further tests"""
+    out = []
+    per = 12 if tier == "quick" else 120
+    for st in FAULT_STACKS:
+        for _ in range(per):
+            h = rand_hist(rng, rng.choice([2, 3, 3, 4]), p=0.5)
+            out.append(with_faults(rng, {"stack": st, "hist": h}, p=1.0))
+    for inner in [["B"], ["G", [1], [], ["B"]], ["M", [["T", "27"], ["B"]]]]:
+        for _ in range(4 if tier == "quick" else 30):
+            h = []
+            for _k in range(rng.choice([2, 3])):
+                h += rand_noise(rng, 0.3)
+                h.append(["real", 3 * rng.randint(0, 2), rng.choice(real_progs())])
+            out.append(with_faults(rng, {"stack": ["E", inner], "hist": h}, p=1.0))
+    return out
+
+
 def generate(rng, tier):
     cases = []
     fixed = [
@@ -895,6 +985,13 @@ def generate(rng, tier):
          "hist": [["start", 1], ["skip", 1, ["d", [["reason-1", "t", "BRAVO"], ["reason", "t", "ALPHA"]]]],
                   ["stop", 1]]},
         {"stack": ["D", ["T", "tt"]], "hist": [["prog", 1, 2], ["done"], ["halt"]]},
+        # on_test raises for a test with test-local tags (its own and a Tagger's); the next test has its own tags
+        {"stack": ["G", [1], [], ["B", [0]]],
+         "hist": [["tags", [5], []], ["start", 0], ["tags", [2], [5]], ["ok", "success", 0, None], ["stop", 0],
+                  ["start", 1], ["ok", "success", 1, None], ["stop", 1]]},
+        {"stack": ["M", [["T", "26"], ["B", [3]]]],
+         "hist": [["time", 1], ["start", 3], ["tags", [4], []], ["err", "error", 3, ["d", []]], ["time", 2],
+                  ["stop", 3], ["start", 4], ["skip", 4, ["r", "why"]], ["stop", 4]]},
     ]
     cases += fixed
     stacks = small_stacks()
@@ -918,12 +1015,15 @@ def generate(rng, tier):
             for _ in range(8):
                 cases.append({"stack": s, "hist": names_hist(rng, rng.choice(orders), rng.sample(OUTCOME_KINDS, 3))})
     cases += real_cases(rng, tier)
+    cases = cases[:len(fixed)] + [with_faults(rng, c) if rng.random() < 0.5 else c for c in cases[len(fixed):]]
+    cases += fault_cases(rng, tier)
     n_rand = 1200 if tier == "quick" else 22000
     for _ in range(n_rand):
         s = rand_stack(rng, 3)
         if not is_ext(s):
             s = ["E", s]
-        cases.append({"stack": s, "hist": rand_hist(rng, rng.choice([0, 1, 2, 2, 3, 4]))})
+        c = {"stack": s, "hist": rand_hist(rng, rng.choice([0, 1, 2, 2, 3, 4]))}
+        cases.append(with_faults(rng, c) if rng.random() < 0.5 else c)
     return cases
 
 
@@ -949,6 +1049,14 @@ def shrink(case):
         if c[0] in ("tags", "time", "prog", "halt", "done", "run", "endrun", "real"):
             yield {"stack": s, "hist": h[:j] + h[j + 1:]}
     real = has_real(case)
+    ls0 = leaves_of(s)
+    for j, l in enumerate(ls0):
+        if l[0] == "B" and len(l) > 1 and l[1]:
+            for m in range(len(l[1])):
+                s2 = json.loads(json.dumps(s))
+                l2 = leaves_of(s2)[j]
+                l2[1] = l2[1][:m] + l2[1][m + 1:]
+                yield {"stack": s2, "hist": h}
 
     def sub(t):
         k = t[0]
@@ -1002,8 +1110,10 @@ def shrink(case):
 def distribution(cases):
     d = {"depth": {}, "tests": {}, "leaf_flavours": {}, "outcomes": {}, "adapters": {}, "details_form": 0,
          "empty_details": 0, "binary_details": 0, "real_testcase_runs": 0, "special_and_extension": 0,
-         "reason_and_extension": 0, "detail_names": {}}
+         "reason_and_extension": 0, "detail_names": {}, "faulty_on_test": 0, "fault_reaches_sibling": 0}
     for c in cases:
+        d["faulty_on_test"] += has_faults(c)
+        d["fault_reaches_sibling"] += fault_reaches_sibling(c)
         dp = depth(c["stack"])
         d["depth"][dp] = d["depth"].get(dp, 0) + 1
         nt = n_tests(c)
